@@ -1,6 +1,7 @@
 import HapModel.Drv.Basic
 import HapModel.Model.Clump
 import HapModel.Model.Overlap
+import HapModel.Model.LdStat
 namespace Drv
 open Lean NextIndex Clump
 
@@ -23,5 +24,17 @@ def hOverlap (j : Json) : R Json := do
   let a ← listF pr j "snp"
   let b ← listF pr j "str"
   pure <| jObj [("pairs", jArr ((Overlap.walk a b).map (fun p => jArr [jNat p.1, jNat p.2])))]
+
+/-- {"op":"clumpLd","cand":[[a,b]…],"index":[[a,b]…]} (allele indices per sample; 254/255 = missing)
+    → {"kind":"empty"|"undefined"|"r2","num2":n,"den":d} : `ComputeLD` in Pearson mode, exactly -/
+def hClumpLd (j : Json) : R Json := do
+  let pr := fun (x : Json) => do match ← arr x with
+    | [a, b] => pure ((← nat a, ← nat b) : Nat × Nat) | _ => throw "call"
+  let c ← listF pr j "cand"
+  let i ← listF pr j "index"
+  pure <| match LdStat.clumpLd c i with
+    | .empty => jObj [("kind", jStr "empty")]
+    | .undefined => jObj [("kind", jStr "undefined")]
+    | .r2 n d => jObj [("kind", jStr "r2"), ("num2", jInt n), ("den", jInt d)]
 
 end Drv
